@@ -12,7 +12,7 @@ from __future__ import annotations
 import ast
 from typing import Dict, FrozenSet, List, Optional, Set, Tuple
 
-from ..core import AnalysisError, call_attr, call_name, calls_in, norm, short
+from ..core import AnalysisError, call_attr, call_name, calls_in, norm, parent, short
 from ..report import Ctx
 
 PREV = "<entry>"
@@ -718,3 +718,69 @@ def rule_view_stale(ctx: Ctx, rel: str, quals: Optional[List[str]] = None) -> No
             else:
                 ctx.ok("view.stale", m, bnode, what=f"{fn.name}: view `{v}` of `{base}` not read after `{base}` is modified")
     ctx.note(f"view.stale: {views} view bindings analysed in {rel}")
+
+
+# ------------------------------------------------------------------------------------------------------- index.space
+
+
+def rule_index_space(ctx: Ctx, rels: List[str]) -> None:
+    """index.space: a loop variable that counts *positions in a filtered list* (`for i in range(len(F))`, F = [k for k in range(n) if ...])
+    is not a label of the original collection: used for anything but `F[i]` (as a qubit number, a row / column of an n x n array, in a
+    comparison with original labels) it addresses the wrong element as soon as the filter drops an element in the middle."""
+    repo = ctx.repo
+    scanned = hits = 0
+    for rel in rels:
+        m = repo.module(rel)
+        for fn in [f for f in ast.walk(m.tree) if isinstance(f, ast.FunctionDef)]:
+            scanned += 1
+            env: Dict[str, ast.AST] = {}
+            for a in ast.walk(fn):
+                if isinstance(a, ast.Assign) and len(a.targets) == 1 and isinstance(a.targets[0], ast.Name):
+                    env.setdefault(a.targets[0].id, a.value)
+            filtered = {k for k, v in env.items() if isinstance(v, ast.ListComp) and len(v.generators) == 1 and v.generators[0].ifs
+                        and isinstance(v.generators[0].iter, ast.Call) and call_name(v.generators[0].iter) == "range"
+                        and norm(v.elt) == norm(v.generators[0].target)}
+            if not filtered:
+                continue
+            lens = {k: v.args[0].id for k, v in env.items() if isinstance(v, ast.Call) and call_name(v) == "len" and v.args and isinstance(v.args[0], ast.Name)
+                    and v.args[0].id in filtered}
+            for l in [l_ for l_ in ast.walk(fn) if isinstance(l_, ast.For) and isinstance(l_.target, ast.Name) and isinstance(l_.iter, ast.Call) and call_name(l_.iter) == "range"]:
+                F = None
+                for a in l.iter.args:
+                    for x in ast.walk(a):
+                        if isinstance(x, ast.Name) and x.id in lens:
+                            F = lens[x.id]
+                        if isinstance(x, ast.Call) and call_name(x) == "len" and x.args and isinstance(x.args[0], ast.Name) and x.args[0].id in filtered:
+                            F = x.args[0].id
+                if F is None:
+                    continue
+                v = l.target.id
+                bad = None
+                for x in ast.walk(l):
+                    if isinstance(x, ast.Name) and x.id == v and isinstance(x.ctx, ast.Load):
+                        p_ = parent(x)
+                        # allowed: F[v], and as a bound of a nested range over the same filtered list (for j in range(v + 1, nF))
+                        if isinstance(p_, ast.Subscript) and isinstance(p_.value, ast.Name) and p_.value.id == F and p_.slice is x:
+                            continue
+                        q_ = p_
+                        in_range = False
+                        while q_ is not None and q_ is not l:
+                            if isinstance(q_, ast.Call) and call_name(q_) == "range":
+                                in_range = True
+                            q_ = parent(q_)
+                        if in_range:
+                            continue
+                        bad = x
+                        break
+                if bad is not None:
+                    hits += 1
+                    ctx.touch(m, fn)
+                    ctx.fail("index.space", m, bad,
+                             f"{fn.name}: `{v}` counts positions in the filtered list `{F}` (`{short(env[F], 60)}`) but is used as `{short(parent(bad), 50)}`, "
+                             f"i.e. as a label of the unfiltered collection: whenever the filter drops an element before the end, position and label "
+                             f"differ and the wrong qubit / row is addressed (use {F}[{v}])", func=fn.name,
+                             construct=f"{fn.name}: position in {F} used as a label")
+    if scanned == 0:
+        raise AnalysisError("index.space: nothing scanned")
+    if hits == 0:
+        ctx.ok_abstract("index.space", f"no loop over positions of a filtered list uses the position as a label ({scanned} functions)")
